@@ -1,4 +1,5 @@
 #include <yaclib/fault/detail/fiber/queue.hpp>
+#include <yaclib/fault/verif.hpp>
 
 namespace yaclib::detail::fiber {
 
@@ -22,6 +23,27 @@ void FiberQueue::NotifyOne() {
   if (_queue.Empty()) {
     return;
   }
+#ifdef YACLIB_VERIF
+  if (auto* f = verif::GetHooks().pick_waiter) {
+    std::uint64_t ids[64];
+    Node* nodes[64];
+    int n = 0;
+    for (auto* first = _queue.GetElement(0, false); n != 64;) {
+      auto* node = _queue.GetElement(static_cast<std::size_t>(n), false);
+      if (node == nullptr || (n != 0 && node == first)) {
+        break;
+      }
+      nodes[n] = node;
+      ids[n] = static_cast<FiberBase*>(static_cast<BiNodeWaitQueue*>(node))->GetId();
+      ++n;
+    }
+    if (int i = f(ids, n); i >= 0 && i < n) {
+      nodes[i]->Erase();
+      ScheduleAndRemove(static_cast<FiberBase*>(static_cast<BiNodeWaitQueue*>(nodes[i])));
+      return;
+    }
+  }
+#endif
   auto* fiber = static_cast<FiberBase*>(static_cast<BiNodeWaitQueue*>(PollRandomElementFromList(_queue)));
   ScheduleAndRemove(fiber);
 }
